@@ -79,7 +79,17 @@ def concrete_witness_search(task, closed_form, input_constraints, res, npoints=6
     # interior points first (strict versions of the bounds), then whatever the solver offers
     for nm, v in vars_.items():
         s.add(v > 0)
-    pts = sample_points(s, vars_, n=npoints)
+    pts = []
+    # awkward non-integer points first (a change that rounds, truncates or reorders its inputs is invisible on
+    # the small integers a solver likes to offer), then whatever the solver offers
+    awkward = [Fraction(3, 2), Fraction(7, 3), Fraction(5, 4), Fraction(11, 5), Fraction(2, 3), Fraction(13, 6), Fraction(9, 7)]
+    names = sorted(vars_)
+    for rot in range(3):
+        cand = {n: awkward[(i + rot * 2) % len(awkward)] for i, n in enumerate(names)}
+        if not any(vars_[n].is_int() for n in names) and core.guarded_check(
+                s, *[vars_[n] == z3.Q(v.numerator, v.denominator) for n, v in cand.items()], seconds=10) == z3.sat:
+            pts.append((None, cand))
+    pts += sample_points(s, vars_, n=npoints)
     okey = lambda o: json.dumps(o, sort_keys=True)
     for pm, pt in pts:
         mdl = {n: str(v) for n, v in pt.items()}
